@@ -55,8 +55,8 @@ def generate(rng, tier):
             as_ = rng.choice(["wcs", "lowlevel", "lowlevel", "header"])
             if kind in ("permuted", "other_types") and rng.random() < 0.7:
                 kind, shift = "same", [0] * nd
-        so = rng.choice(["explicit", "target", "target", "missing", "other", "override", "explicit_only"])
-        if so == "explicit_only" and rng.random() < 0.6:
+        so = rng.choice(["explicit", "target", "target", "missing", "other", "override", "explicit_only", "explicit_only"])
+        if so == "explicit_only" and rng.random() < 0.4:
             as_ = "header"                  # (what WCS.to_header() gives: no NAXISn cards)
         yield {"order": order, "shape": shape, "kind": kind, "algo": algo, "shift": shift, "crpix_seed": rng.randrange(1000),
                "as": as_,
@@ -171,6 +171,8 @@ def run(case):
     elif case["shape_out"] == "missing" and not (case["as"] == "header" and False):
         refuse = "no output shape available"
     before = (np.array(cube.data, copy=True), dict(cube.meta), cube.unit)
+    target_before = (None if t.array_shape is None else tuple(t.array_shape), t.to_header_string(), C.freeze(target) if isinstance(target, dict) or hasattr(target, "cards") else None,
+                     C.freeze(kw.get("shape_out")))
     try:
         if case["crpix_seed"] % 4 == 1:
             # the documented parameters in their documented order, given positionally
@@ -193,6 +195,11 @@ def run(case):
         status = err_kind(e)
         res["impl"]["err"] = status
         msg = f"{type(e).__name__}: {str(e)[:120]}"
+    # accepted or refused, the request leaves the caller's target (its declared shape included) and shape_out as given
+    target_after = (None if t.array_shape is None else tuple(t.array_shape), t.to_header_string(), C.freeze(target) if isinstance(target, dict) or hasattr(target, "cards") else None,
+                    C.freeze(kw.get("shape_out")))
+    if target_after != target_before:
+        fails.append(f"reproject_to edited the target / shape_out the caller passed in (declared array shape {target_before[0]} -> {target_after[0]})")
     if refuse:
         if status == "ok":
             fails.append(f"request should be refused ({refuse}) but returned {('a cube of shape ' + str(out.data.shape)) if hasattr(out, 'data') else type(out).__name__}")
